@@ -95,10 +95,44 @@ func c06Mega(c *sim.Ctx) *sim.Violation {
 	return nil
 }
 
+// c06Giant: a frame of a type OTHER than PUBLISH whose remaining length lies
+// above 2^27 (up to the protocol maximum 2^28-1), followed by a PINGREQ. What
+// the decoder makes of the body is its business; it must draw exactly the frame
+// and leave the PINGREQ for the next call.
+func c06Giant(c *sim.Ctx, n int, first byte) *sim.Violation {
+	hdr := ref.AppendVarint([]byte{first}, uint32(n))
+	stream := make([]byte, len(hdr)+n+2)
+	copy(stream, hdr)
+	copy(stream[len(hdr):], []byte{0, 1, 0, 0}) // packet identifier 1, reason 0, no properties, then zeros
+	stream[len(hdr)+n-1] = 0x7E
+	stream[len(hdr)+n], stream[len(hdr)+n+1] = 0xC0, 0x00
+	r := link.NewReader(c, stream, link.Mode{})
+	got := ReadOne(r)
+	typ := typeName(first >> 4)
+	if got.Kind == "panic" {
+		return sim.V("C06/"+typ+"/giant/panic:"+got.Pan.Site, "frame of type %s with remaining length %d: %s", typ, n, got)
+	}
+	if r.Delivered != len(hdr)+n {
+		return sim.V("C06/"+typ+"/giant/under-or-over-read", "frame of type %s with remaining length %d: the call drew %d bytes, the frame has %d; result %s", typ, n, r.Delivered, len(hdr)+n, oneOutcome(got))
+	}
+	next := ReadOne(r)
+	if next.Kind != "packet" || next.Type != ref.PingReq {
+		return sim.V("C06/sequence/after-giant-frame", "after a %s frame of remaining length %d the following PINGREQ read as %s", typ, n, next)
+	}
+	c.Count("probe.remaining-length-above-2^27(" + typ + ")")
+	c.DistinctStr(fmt.Sprintf("giant/%d/%d", first, n))
+	return nil
+}
+
 func runC06(c *sim.Ctx) *sim.Violation {
 	t := c.T
 	if c.Run < 9 || (c.Thorough && c.Run < 40) {
 		return c06Mega(c)
+	}
+	if c.Run == 40 || (c.Thorough && c.Run > 40 && c.Run < 56) {
+		types := []byte{0x40, 0x20, 0x50, 0x62, 0x70, 0x90, 0xB0, 0xE0, 0xF0, 0x00, 0x82, 0xA2, 0x10, 0xC0, 0xD0, 0x30}
+		sizes := []int{1<<27 + 5, 1<<28 - 1, 1<<27 + 1, 1 << 27, 1<<27 + 4096, 200 << 20}
+		return c06Giant(c, sizes[int(c.Run+c.Seed)%len(sizes)], types[int(c.Run-40)%len(types)])
 	}
 	n := 1 + t.Pick(3, 3, 2, 2)
 	if n == 4 {
